@@ -262,7 +262,9 @@ class LayoutMetamorphic(BoundedCheck):
         for variant in ('```\nif True:\n    self.Q = 1  # set Q\n    self.R = 2\n```\nY = X + 1',
                         '```\nif True:  # always\n    self.Q = 1\n    self.R = 2   # and R\n```\nY = X + 1  # then Y',
                         '```\nif True:\n    self.Q = 1\n    self.R = 2\n```\n\nY = X + 1\n',
-                        '# lead\n```\nif True:\n    self.Q = 1\n    self.R = 2\n```\nY   =   X+1'):
+                        '# lead\n```\nif True:\n    self.Q = 1\n    self.R = 2\n```\nY   =   X+1',
+                        '```  # begin\nif True:\n    self.Q = 1\n    self.R = 2\n```  # end\nY = X + 1',
+                        '```\nif True:\n    self.Q = 1\n    self.R = 2\n```\n\n\nY = X + 1'):
             yield {'script': base, 'seed': 0, 'fenced_variant': variant}
 
     def check(self, case, res: BoundedResult):
@@ -458,12 +460,23 @@ class BuildVariants(BoundedCheck):
                 elif not (isinstance(vals, str) and vals == ref_vals or (not isinstance(vals, str) and not isinstance(ref_vals, str)
                                                                          and np.array_equal(vals, ref_vals, equal_nan=True))):
                     out.append(Violation('all build routes evaluate identically', 'c15.evaluate', dict(jcase, variant=str(key)), 'same values', 'different'))
-        if not symbols:
-            m = ref_cls(range(ref_cls.LAGS + ref_cls.LEADS + 3))
-            try:
-                m.solve()
-            except Exception as ex:  # noqa: BLE001
-                out.append(Violation('an empty symbol list yields a valid model that solves trivially', 'c15.empty-solve', jcase, 'solves', type(ex).__name__))
+        if not symbols or all(s_.name is None for s_ in symbols):
+            # no variables at all (empty symbol list, verbatim-only script): a valid model all the same - it solves, and its (empty) contents can be read and replaced
+            for key, classes in variants.items():
+                for cls in classes[:1] + classes[1:2]:
+                    m = cls(range(cls.LAGS + cls.LEADS + 3))
+                    try:
+                        m.solve()
+                        vals = m.values
+                        if getattr(vals, 'size', None) != 0 or m.size != 0:
+                            out.append(Violation('an empty symbol list yields a valid model (no variables: empty values)', 'c15.empty-values', dict(jcase, variant=str(key)), 0, getattr(vals, 'size', None)))
+                        m.values = 0.0
+                        m.copy()
+                        m.to_dataframe()
+                    except Exception as ex:  # noqa: BLE001
+                        out.append(Violation('an empty symbol list yields a valid model that solves trivially', 'c15.empty-solve', dict(jcase, variant=str(key)), 'solves',
+                                             f'{type(ex).__name__}: {ex}'[:80]))
+                        break
         return out
 
 
